@@ -82,6 +82,9 @@ pub fn worker(prop: &dyn Property, tier: Tier, batch_seed: u64, start: u64, step
     let t0 = Instant::now();
     let mut i = start;
     let mut reported = 0;
+    // sanitizer workers also say which scenario of a seed is in progress, so that a run that kills the
+    // process can be named exactly
+    let track_scenarios = std::env::var("VERIF_TRACK_SCENARIO").is_ok();
     while i < end {
         if max_s > 0 && t0.elapsed().as_secs() > max_s {
             break;
@@ -97,6 +100,11 @@ pub fn worker(prop: &dyn Property, tier: Tier, batch_seed: u64, start: u64, step
         st.seeds += 1;
         for (k, sc) in scs.iter().enumerate() {
             st.scenarios += 1;
+            if track_scenarios && k > 0 {
+                let mut o = out.lock();
+                let _ = writeln!(o, "K {k}");
+                let _ = o.flush();
+            }
             // tracing probes on a sampled subset of runs
             let probed = (i / step) % 8 == 0;
             crate::probes::set_on(probed);
@@ -195,6 +203,7 @@ pub fn worker(prop: &dyn Property, tier: Tier, batch_seed: u64, start: u64, step
 
 enum Msg {
     Begin(usize, u64),
+    Scen(usize, usize),
     Violation(usize, ViolationMsg),
     Stats(usize, WorkerStats),
     Exit(usize, Option<i32>, bool),
@@ -205,7 +214,11 @@ struct WorkerHandle {
     profile: String,
     bin: String,
     start: u64,
+    step: u64,
+    end: u64,
     last_begin: Option<u64>,
+    last_scen: usize,
+    stderr_path: Option<String>,
     last_time: Instant,
     done: bool,
 }
@@ -218,13 +231,35 @@ pub struct CheckConfig {
     pub runs_override: Option<u64>,
     pub max_s: u64,
     pub per_run_wall_s: u64,
+    /// release build of the simulator and of resolvo instrumented with AddressSanitizer (nightly toolchain), if it
+    /// could be built: the memory-error oracle of C04, C10, C13, C16 and C20
+    pub asan_bin: Option<String>,
 }
 
-fn spawn_worker(bin: &str, prop: &str, tier: &str, cfg: &CheckConfig, start: u64, step: u64, end: u64, idx: usize, tx: &mpsc::Sender<Msg>) -> std::process::Child {
-    let mut child = Command::new(bin)
-        .args(["worker", prop, tier, &cfg.batch_seed.to_string(), &start.to_string(), &step.to_string(), &end.to_string(), &cfg.max_s.to_string()])
-        .stdout(Stdio::piped())
-        .stderr(Stdio::null())
+/// Properties whose batches are also run (a fraction of the seeds) in the AddressSanitizer build. A memory error
+/// there kills the worker; it is reported under the property whose batch was running.
+pub fn owns_memory_errors(prop: &str) -> bool {
+    matches!(prop, "C04" | "C10" | "C13" | "C16" | "C20")
+}
+
+fn spawn_worker(bin: &str, prop: &str, tier: &str, cfg: &CheckConfig, start: u64, step: u64, end: u64, idx: usize, tx: &mpsc::Sender<Msg>, stderr_path: Option<&str>) -> std::process::Child {
+    let mut cmd = Command::new(bin);
+    cmd.args(["worker", prop, tier, &cfg.batch_seed.to_string(), &start.to_string(), &step.to_string(), &end.to_string(), &cfg.max_s.to_string()])
+        .stdout(Stdio::piped());
+    match stderr_path.and_then(|p| std::fs::File::create(p).ok()) {
+        Some(f) => {
+            // sanitizer worker: keep the report, name the scenario in progress, and give the instrumented code
+            // (larger frames) a larger stack than the 2 MiB the other profiles run on
+            cmd.stderr(Stdio::from(f))
+                .env("VERIF_TRACK_SCENARIO", "1")
+                .env("VERIF_STACK_MB", "32")
+                .env("ASAN_OPTIONS", ASAN_OPTIONS);
+        }
+        None => {
+            cmd.stderr(Stdio::null());
+        }
+    }
+    let mut child = cmd
         .spawn()
         .unwrap_or_else(|e| {
             eprintln!("harness error: cannot spawn worker {bin}: {e}");
@@ -241,6 +276,10 @@ fn spawn_worker(bin: &str, prop: &str, tier: &str, cfg: &CheckConfig, start: u64
                 if let Ok(i) = r.trim().parse::<u64>() {
                     let _ = tx.send(Msg::Begin(idx, i));
                 }
+            } else if let Some(r) = line.strip_prefix("K ") {
+                if let Ok(k) = r.trim().parse::<usize>() {
+                    let _ = tx.send(Msg::Scen(idx, k));
+                }
             } else if let Some(r) = line.strip_prefix("V ") {
                 if let Ok(v) = serde_json::from_str::<ViolationMsg>(r) {
                     let _ = tx.send(Msg::Violation(idx, v));
@@ -255,6 +294,15 @@ fn spawn_worker(bin: &str, prop: &str, tier: &str, cfg: &CheckConfig, start: u64
         let _ = tx.send(Msg::Exit(idx, None, got_stats));
     });
     child
+}
+
+pub const ASAN_OPTIONS: &str = "detect_leaks=0:exitcode=1:abort_on_error=0:halt_on_error=1:malloc_context_size=6";
+
+/// First line of an AddressSanitizer report ("heap-use-after-free", "heap-buffer-overflow", ...), if any.
+pub fn asan_kind(stderr_text: &str) -> Option<String> {
+    let l = stderr_text.lines().find(|l| l.contains("ERROR: AddressSanitizer"))?;
+    let rest = l.split("AddressSanitizer:").nth(1)?.trim();
+    Some(rest.split_whitespace().next().unwrap_or("unknown").trim_end_matches(':').to_string())
 }
 
 fn write_replay(cfg: &CheckConfig, rf: &ReplayFile, tag: &str) -> String {
@@ -282,6 +330,9 @@ pub fn replay_in_fresh_process(bin: &str, path: &str) -> bool {
     false
 }
 
+/// One seed in ASAN_SHARE of a batch is repeated in the sanitizer build (which runs about 8 times slower).
+pub const ASAN_SHARE: u64 = 16;
+
 pub fn run_check(prop: &dyn Property, tier_s: &str, cfg: &CheckConfig) -> i32 {
     let tier = tier_from(tier_s);
     let t0 = Instant::now();
@@ -293,30 +344,65 @@ pub fn run_check(prop: &dyn Property, tier_s: &str, cfg: &CheckConfig) -> i32 {
     for (profile, bin) in &cfg.bins {
         for k in 0..per_profile {
             let idx = workers.len();
-            let child = spawn_worker(bin, prop.id(), tier_s, cfg, k as u64, per_profile as u64, runs, idx, &tx);
+            let child = spawn_worker(bin, prop.id(), tier_s, cfg, k as u64, per_profile as u64, runs, idx, &tx, None);
             workers.push(WorkerHandle {
                 child,
                 profile: profile.clone(),
                 bin: bin.clone(),
                 start: k as u64,
+                step: per_profile as u64,
+                end: runs,
                 last_begin: None,
+                last_scen: 0,
+                stderr_path: None,
                 last_time: Instant::now(),
                 done: false,
             });
         }
     }
-    let step = per_profile as u64;
+    // memory-error oracle: the first runs/ASAN_SHARE seeds of the batch once more in the AddressSanitizer build
+    let asan_runs = if owns_memory_errors(prop.id()) && cfg.asan_bin.is_some() { (runs / ASAN_SHARE).max(1) } else { 0 };
+    if asan_runs > 0 {
+        let bin = cfg.asan_bin.clone().unwrap();
+        let n = (cfg.jobs / 4).max(1);
+        let tmp = std::env::var("VERIF_TMP").unwrap_or_else(|_| "/tmp".into());
+        for k in 0..n {
+            let idx = workers.len();
+            let errp = format!("{tmp}/asan-{}-{}-{k}.stderr", prop.id(), std::process::id());
+            let child = spawn_worker(&bin, prop.id(), tier_s, cfg, k as u64, n as u64, asan_runs, idx, &tx, Some(&errp));
+            workers.push(WorkerHandle {
+                child,
+                profile: "asan".into(),
+                bin: bin.clone(),
+                start: k as u64,
+                step: n as u64,
+                end: asan_runs,
+                last_begin: None,
+                last_scen: 0,
+                stderr_path: Some(errp),
+                last_time: Instant::now(),
+                done: false,
+            });
+        }
+    }
     let mut total = WorkerStats::default();
     let mut per_profile_runs: BTreeMap<String, u64> = BTreeMap::new();
     let mut keys: std::collections::HashSet<u64> = Default::default();
     let mut inter: std::collections::HashSet<u64> = Default::default();
     let mut violations: Vec<(String, ViolationMsg)> = Vec::new();
     let mut hard_crashes: Vec<(String, u64, String)> = Vec::new();
+    // (seed index, scenario index within the seed, sanitizer report) of runs that died in the sanitizer build
+    let mut memory_errors: Vec<(u64, usize, String)> = Vec::new();
     let mut active = workers.len();
     while active > 0 {
         match rx.recv_timeout(Duration::from_millis(500)) {
             Ok(Msg::Begin(i, n)) => {
                 workers[i].last_begin = Some(n);
+                workers[i].last_scen = 0;
+                workers[i].last_time = Instant::now();
+            }
+            Ok(Msg::Scen(i, k)) => {
+                workers[i].last_scen = k;
                 workers[i].last_time = Instant::now();
             }
             Ok(Msg::Violation(i, v)) => {
@@ -376,11 +462,18 @@ pub fn run_check(prop: &dyn Property, tier_s: &str, cfg: &CheckConfig) -> i32 {
                         Some(s) => format!("{s}"),
                         None => "unknown".into(),
                     };
-                    hard_crashes.push((workers[i].profile.clone(), at, how));
+                    let report = workers[i].stderr_path.as_ref().and_then(|p| std::fs::read_to_string(p).ok()).unwrap_or_default();
+                    if workers[i].profile == "asan" && asan_kind(&report).is_some() {
+                        memory_errors.push((at, workers[i].last_scen, report));
+                    } else {
+                        hard_crashes.push((workers[i].profile.clone(), at, how));
+                    }
+                    let (step, runs) = (workers[i].step, workers[i].end);
                     let next = at + step;
-                    if next < runs && hard_crashes.len() < 50 {
+                    if next < runs && hard_crashes.len() + memory_errors.len() < 50 {
                         let bin = workers[i].bin.clone();
-                        let child = spawn_worker(&bin, prop.id(), tier_s, cfg, next, step, runs, i, &tx);
+                        let errp = workers[i].stderr_path.clone();
+                        let child = spawn_worker(&bin, prop.id(), tier_s, cfg, next, step, runs, i, &tx, errp.as_deref());
                         workers[i].child = child;
                         workers[i].start = next;
                         workers[i].last_begin = None;
@@ -406,6 +499,10 @@ pub fn run_check(prop: &dyn Property, tier_s: &str, cfg: &CheckConfig) -> i32 {
     // ---- triage of violations
     let self_bin = std::env::current_exe().unwrap().to_string_lossy().to_string();
     let mut exit_code = 0;
+    // Undefined behaviour makes a run a function of more than its scenario: when the sanitizer build reported a
+    // memory error in this batch, a semantic violation that does not reproduce is explained by it and is not a
+    // harness error.
+    let ub_seen = !memory_errors.is_empty();
     let mut known_hits: BTreeMap<String, u64> = BTreeMap::new();
     let mut reported_classes: BTreeSet<String> = BTreeSet::new();
     let mut strict_checked: BTreeMap<String, u32> = BTreeMap::new();
@@ -451,6 +548,10 @@ pub fn run_check(prop: &dyn Property, tier_s: &str, cfg: &CheckConfig) -> i32 {
                 unconfirmed += 1;
                 continue;
             }
+            if ub_seen {
+                eprintln!("note: violation {} at seed {} does not reproduce in-process (memory errors were reported in this batch)", v.class, v.seed);
+                continue;
+            }
             eprintln!("harness error: violation {} at seed {} does not reproduce in-process (got {:?})", v.class, v.seed, confirm);
             exit_code = exit_code.max(2);
             continue;
@@ -483,6 +584,11 @@ pub fn run_check(prop: &dyn Property, tier_s: &str, cfg: &CheckConfig) -> i32 {
         if !replay_in_fresh_process(&bin, &path) {
             if prop.id() == "C06" {
                 unconfirmed += 1;
+                let _ = std::fs::remove_file(&path);
+                continue;
+            }
+            if ub_seen {
+                eprintln!("note: replay {path} does not reproduce in a fresh process (memory errors were reported in this batch)");
                 let _ = std::fs::remove_file(&path);
                 continue;
             }
@@ -522,6 +628,53 @@ pub fn run_check(prop: &dyn Property, tier_s: &str, cfg: &CheckConfig) -> i32 {
         } else {
             total.aborted_other += hard_crashes.len() as u64;
         }
+    }
+    // memory errors found by the sanitizer build: reported under this property (C04, C10, C13, C16, C20), after the
+    // stored scenario has killed a fresh sanitizer process in the same way
+    let mut memory_error_kinds: BTreeMap<String, u64> = BTreeMap::new();
+    let (mut memory_reproduced, mut memory_unreproduced) = (0u32, 0u32);
+    for (idx, k, report) in &memory_errors {
+        let kind = asan_kind(report).unwrap_or_else(|| "unknown".into());
+        *memory_error_kinds.entry(kind.clone()).or_insert(0) += 1;
+        let class = format!("memory-error:{kind}");
+        if reported_classes.contains(&class) {
+            continue;
+        }
+        let seed = seed_for(cfg.batch_seed, prop.id(), *idx);
+        let Some(sc) = prop.gen(seed, tier).into_iter().nth(*k) else { continue };
+        let first = report.lines().find(|l| l.contains("ERROR: AddressSanitizer")).unwrap_or("").trim().to_string();
+        let frames: Vec<&str> = report.lines().filter(|l| l.trim_start().starts_with('#') && l.contains("resolvo")).take(4).map(|l| l.trim()).collect();
+        let rf = ReplayFile {
+            property: prop.id().into(),
+            class: class.clone(),
+            detail: format!("{first} | {}", frames.join(" | ")),
+            seed,
+            profile: "asan".into(),
+            minimised: false,
+            scenario: sc,
+        };
+        let path = write_replay(cfg, &rf, "-mem");
+        let bin = cfg.asan_bin.clone().unwrap_or(self_bin.clone());
+        if !replay_in_fresh_process(&bin, &path) {
+            // whether freed memory is touched can depend on what the worker process ran before; other occurrences are tried
+            eprintln!("note: memory error at index {idx}.{k} does not recur when {path} is replayed in a fresh sanitizer process");
+            let _ = std::fs::remove_file(&path);
+            memory_unreproduced += 1;
+            if memory_unreproduced >= 12 {
+                break;
+            }
+            continue;
+        }
+        memory_reproduced += 1;
+        reported_classes.insert(class.clone());
+        println!("VIOLATION property={} replay={}", prop.id(), path);
+        println!("  class={class} profile=asan seed={seed}");
+        println!("  {}", rf.detail);
+        exit_code = exit_code.max(1);
+    }
+    if memory_unreproduced > 0 && memory_reproduced == 0 {
+        eprintln!("harness error: {} memory errors were reported by sanitizer workers but none recurs from its replay file", memory_errors.len());
+        exit_code = exit_code.max(2);
     }
     let mut cross_process_compared = 0u64;
     if prop.id() == "C06" {
@@ -568,7 +721,9 @@ pub fn run_check(prop: &dyn Property, tier_s: &str, cfg: &CheckConfig) -> i32 {
     for (what, n) in &known_hits {
         println!("KNOWN-FINDING: property={} {} ({} occurrences in this batch)", prop.id(), what, n);
     }
-    if total.determinism_mismatches > 0 {
+    if total.determinism_mismatches > 0 && ub_seen && exit_code == 1 {
+        eprintln!("note: {} in-process determinism re-checks disagreed (memory errors were reported in this batch)", total.determinism_mismatches);
+    } else if total.determinism_mismatches > 0 {
         eprintln!("harness error: {} of {} in-process determinism re-checks disagreed", total.determinism_mismatches, total.determinism_rechecks);
         exit_code = exit_code.max(2);
     }
@@ -620,6 +775,18 @@ pub fn run_check(prop: &dyn Property, tier_s: &str, cfg: &CheckConfig) -> i32 {
             "raw_violations_seen": total.violations,
             "known_finding_hits": known_hits,
             "hard_crashes": hard_crashes.len(),
+            "memory_oracle": if asan_runs > 0 {
+                serde_json::json!({
+                    "build": "simulator + resolvo compiled with AddressSanitizer (nightly toolchain, release profile, debug assertions off)",
+                    "seeds_repeated_under_sanitizer": asan_runs,
+                    "scenarios_under_sanitizer": per_profile_runs.get("asan").copied().unwrap_or(0),
+                    "memory_errors": memory_error_kinds,
+                })
+            } else if owns_memory_errors(prop.id()) {
+                serde_json::json!("sanitizer build not available; memory-error oracle skipped in this run")
+            } else {
+                serde_json::json!("not part of this property's check")
+            },
             "cross_process_pairs_compared": cross_process_compared,
             "profiles": per_profile_runs,
             "determinism_rechecks": total.determinism_rechecks,
